@@ -8,7 +8,7 @@ from __future__ import annotations
 from hypothesis import strategies as st
 
 MODES = ["best", "separate", "joined", "all"]
-ALL_KINDS = ["exact", "exact", "noisy", "noisy", "stretched", "indel", "indel", "chimeric", "chimeric", "partial",
+ALL_KINDS = ["exact", "exact", "noisy", "noisy", "stretched", "indel", "indel", "slip", "chimeric", "chimeric", "partial",
              "repeat", "unrelated", "short", "degenerate"]
 
 
@@ -70,9 +70,22 @@ def query_map(draw, qid, refs, kinds=ALL_KINDS):
     ref = refs[ri]
     truth = {"kind": kind, "ref": ref["id"]}
     maxlen = max(r["length"] for r in refs)
-    if kind in ("exact", "noisy", "stretched", "indel", "repeat", "partial"):
+    if kind in ("exact", "noisy", "stretched", "indel", "repeat", "partial", "slip"):
         i, k, pos = _window(draw, ref, 7, 45)
         truth.update(i=i, k=k)
+        if kind == "slip" and len(pos) >= 8:
+            # an indel of exactly one (or two) inter-label distances: the tail lies on a diagonal on which every label
+            # meets its neighbour's partner, so the first- and second-pass alignments end / start on the same label
+            j = draw(st.integers(3, len(pos) - 4))
+            w = draw(st.sampled_from([1, 1, 2]))
+            if draw(st.booleans()):
+                gap = pos[j] - pos[max(0, j - w)]
+                pos = pos[:j] + [p - gap for p in pos[j:]]          # deletion: label j falls onto label j-w
+            else:
+                gap = pos[min(len(pos) - 1, j + w)] - pos[j]
+                pos = pos[:j] + [p + gap for p in pos[j:]]          # insertion of one inter-label distance
+            pos = sorted(set(pos))
+            truth.update(slip_at=j, slip=gap)
         if kind in ("noisy", "indel") and k >= 2:
             s = draw(st.sampled_from([60, 250, 600]))
             jit = draw(st.lists(st.integers(-s, s), min_size=k, max_size=k))
